@@ -36,7 +36,8 @@ fn check_ratio_one(rep: &mut Report, d: usize, len: usize, seed: u64) -> bool {
     let src: Vec<f64> = (0..len).map(|i| if i % 17 == 0 { 1.0 } else { rng.f64_in(-1.0, 1.0) }).collect();
     let peak = src.iter().fold(0.0f64, |m, x| m.max(x.abs()));
     let r = vmon::catch(|| {
-        let sinc = Sinc::new(Fixed::from(vec![0.0f64; 2 * d]));
+        // zeroed ring handed over at a rotation derived from the case
+        let sinc = Sinc::new(Fixed::from_raw_parts((seed as usize + len) % (2 * d), vec![0.0f64; 2 * d]));
         let conv = signal::from_iter(src.iter().cloned()).scale_hz(sinc, 1.0);
         conv.take(len).collect::<Vec<f64>>()
     });
@@ -212,13 +213,18 @@ fn check_constant(rep: &mut Report, d: usize, c: f64, grid: usize) -> bool {
 fn check_reset(rep: &mut Report, d: usize, seed: u64) -> bool {
     let case = format!("kind=reset;d={};seed={}", d, seed);
     let mut rng = Rng::derive(seed, &[18, 4, d as u64]);
-    let pre: Vec<f64> = (0..rng.usize_below(5 * d + 2)).map(|_| rng.f64_in(-1.0, 1.0)).collect();
+    // prior history: any length, and in one case out of three shorter than the depth (the
+    // interpolator is still priming when it is reset)
+    let pre_len = if seed % 3 == 1 { rng.usize_below(d + 1) } else { rng.usize_below(5 * d + 2) };
+    let pre: Vec<f64> = (0..pre_len).map(|_| rng.f64_in(-1.0, 1.0)).collect();
+    // ring content before use: arbitrary values, or (every other seed) all zeros as documented
+    let zeroed = seed % 2 == 1;
     let post: Vec<f64> = (0..2 * d + 5).map(|_| rng.f64_in(-1.0, 1.0)).collect();
     let xs = hostile_xs(&mut rng, 3);
     let first = rng.usize_below(2 * d);
     let r = vmon::catch(|| {
         // dirty interpolator: rotated ring with non-zero content, some history
-        let mut dirty = Sinc::new(Fixed::from_raw_parts(first, (0..2 * d).map(|i| 0.3 + i as f64).collect::<Vec<f64>>()));
+        let mut dirty = Sinc::new(Fixed::from_raw_parts(first, (0..2 * d).map(|i| if zeroed { 0.0 } else { 0.3 + i as f64 }).collect::<Vec<f64>>()));
         for p in &pre {
             dirty.next_source_frame(*p);
         }
@@ -300,7 +306,10 @@ fn main() {
                 check_linearity_f64(rep, d, seed, 1.0);
                 check_linearity_f64(rep, d, seed, 1e300);
                 check_linearity_f64(rep, d, seed, 1e-200);
-                check_reset(rep, d, seed);
+                // all six (history length class, ring content class) combinations
+                for v in 0..6u64 {
+                    check_reset(rep, d, seed.wrapping_mul(6).wrapping_add(v));
+                }
                 if d <= 48 {
                     check_linearity_other(rep, d, seed);
                 }
